@@ -137,3 +137,15 @@ PROPS["C06"] = {
     "outside": "multi-byte UTF-8 content (lengths are concrete byte counts, content is symbolic ASCII); more than one database per history; HashMap iteration orders other than insertion order; fsync / page-cache reordering",
     "assumptions": ["in-memory file system shim with exact BufWriter capacity / flush / drop semantics", "environment shims"],
 }
+
+PROPS["C11"] = {
+    "level": "model_checking",
+    "harnesses": [
+        {"name": "c11_crash_incremental", "fn": "c11_crash", "params": {"quick": {"reclaim": 0}}, "covers": ["crash.before-end", "crash.none"]},
+        {"name": "c11_crash_reclaim", "fn": "c11_crash", "params": {"quick": {"reclaim": 1}}, "covers": ["crash.before-end", "crash.none"]},
+    ],
+    "bounds": {"quick": "snapshot 1 (two keys, symbolic content) completes; one of 5 changes {update, add, remove, update+add, update with a 300-byte value}; snapshot 2 (incremental / reclaiming) is cut at a solver-chosen file-system operation (every mutating FS operation with index >= CRASH_AT is dropped, including unflushed buffers); restart with the start_db sequence; every previously persisted key must load with its old or its new (value, version), neighbours intact, no panic",
+               "thorough": "same"},
+    "outside": "torn writes inside one write call; reordering of writes by the page cache (writes reach the disk in program order); crashes during the op-log / key-map writes (C16)",
+    "assumptions": ["in-memory file system with a crash switch; BufWriter contents are lost at the crash", "environment shims"],
+}
